@@ -88,14 +88,21 @@ def run(ctx):
     f = ctx.facts
     bad, n = check(ctx, f, SV, HASH, EQ)
     ctx.floor('hash-subset-of-eq', 'ScalarValue variants with payload', n, 45)
-    # float normalisation on both sides
-    for fn, label in ((HASH, 'hash'), (EQ, 'eq')):
-        tree = f.call_tree(fn, depth=2)
-        uses = any(c.endswith(('::to_bits', '::to_ne_bytes', '::total_cmp')) for d in tree for c in f.callees.get(d, []))
-        if uses:
-            ctx.ok('float-bit-normalisation', label)
+    # float normalisation on both sides: the Hash wrappers for floats hash the bit pattern, eq compares the bit pattern
+    fl = [i for i in f.impls if i.get('trait') == 'core::hash::Hash' and 'datafusion_common::scalar::Fl<' in i['self']]
+    okfl = 0
+    for i in fl:
+        hd = dict((x[0], x[1]) for x in i['items']).get('hash')
+        if hd and any(c.endswith(('::to_bits', '::to_ne_bytes')) for c in f.callees.get(hd, [])):
+            okfl += 1
         else:
-            ctx.fail('float-bit-normalisation', label, ctx.loc(f.fn(fn)) if f.fn(fn) else fn, 'float payloads are not compared/hashed through their bit pattern (to_bits / to_ne_bytes / total_cmp) in %s' % label, key='float-bit-normalisation|' + label)
+            ctx.fail('float-bit-normalisation', i['self'], '%s:%s' % (i['file'], i['line']), 'the float hash wrapper does not hash the bit pattern', key='float-bit-normalisation|' + i['self'])
+    ctx.floor('float-bit-normalisation', 'float hash wrappers hashing the bit pattern', okfl, 3)
+    tree = f.call_tree(EQ, depth=1)
+    if any(c.endswith(('::to_bits', '::to_ne_bytes', '::total_cmp')) for d in tree for c in f.callees.get(d, [])):
+        ctx.ok('float-bit-normalisation', 'eq')
+    else:
+        ctx.fail('float-bit-normalisation', 'eq', ctx.loc(f.fn(EQ)), 'float payloads are not compared through their bit pattern in eq', key='float-bit-normalisation|eq')
     import common
     st = ctx.st
     probe = common.Ctx(ctx.pid, ctx.tier, st, st, {})
